@@ -263,6 +263,23 @@ fn run_case(cx: &Ctx, kv: &Kv) -> Run {
         // the double answers INIT with `want` only when scripted so; force success quietly
         fbrh::scriptfs::QUIET.with(|p| p.set(true));
         let _ = server.handle_message(r, Writer::FuseDev(w), None, None);
+        // optionally a second INIT, with another minor version, which the file system refuses:
+        // a refused INIT must leave the negotiated version alone
+        if let Some(m2) = kv.get("pre_refused") {
+            let mut b = srvgen::B::new();
+            b.u32(7);
+            b.u32(m2.parse::<u64>().unwrap_or(3));
+            b.u32(0);
+            b.u32(0);
+            let mut msg = srvgen::header(56, 26, 2, 0, 0, 0, 0, 0);
+            msg.extend_from_slice(&b.v);
+            let mut scratch = vec![0u8; 256];
+            let r: Reader<'_, ()> = Reader::from_fuse_buffer(FuseBuf::new(&mut msg)).unwrap();
+            let w = FuseDevWriter::<()>::new(cx.sock.0, &mut scratch).unwrap();
+            fbrh::scriptfs::REFUSE_INIT.with(|p| p.set(true));
+            let _ = server.handle_message(r, Writer::FuseDev(w), None, None);
+            fbrh::scriptfs::REFUSE_INIT.with(|p| p.set(false));
+        }
         fbrh::scriptfs::QUIET.with(|p| p.set(false));
         let _ = drain(cx.sock.1);
     }
@@ -818,8 +835,11 @@ fn mk_case(g: &mut GenCtx, op: u32, mutate: bool, prop: &str) -> String {
         if b.needs_reply { 1 } else { 0 }, if cap_ok && cap >= 16 { 1 } else { 0 }, if fs_reach { 1 } else { 0 }, vu, remap);
     if wf_flag { line.push_str(&format!("exp={} ", exp)); }
     if init_wf { line.push_str("init_wf=1 "); }
-    if op == 1 && r.chance(1, 3) {
+    if op == 1 && (prop == "C12" || r.chance(1, 3)) {
         line.push_str(&format!("pre_minor={} ", *r.pick(&[0u32, 3, 4, 5, 33])));
+        if r.chance(1, 2) {
+            line.push_str(&format!("pre_refused={} ", *r.pick(&[0u32, 3, 4, 33])));
+        }
     }
     if !fusedev {
         let rl = split_lens(req.len(), r);
@@ -878,7 +898,9 @@ fn main() {
         }
     }
     for i in 0..n {
-        let op = if prop == "C12" { 26 } else if i < 2 * srvgen::ALL_OPS.len() as u64 { srvgen::ALL_OPS[(i as usize) % srvgen::ALL_OPS.len()] } else { *r.pick(srvgen::ALL_OPS) };
+        // C12: INIT requests, and every eighth case a LOOKUP after a negotiated (and possibly a refused
+        // second) INIT: the negotiated version selects the reply layout
+        let op = if prop == "C12" && i % 8 == 7 { 1 } else if prop == "C12" { 26 } else if i < 2 * srvgen::ALL_OPS.len() as u64 { srvgen::ALL_OPS[(i as usize) % srvgen::ALL_OPS.len()] } else { *r.pick(srvgen::ALL_OPS) };
         let mutate = r.below(100) < mut_pct;
         let line = {
             let mut g = GenCtx { r: &mut r };
